@@ -523,4 +523,107 @@ def realHelper (fx : Facts) : String → Option (Bool × Option Bool × Bool)
   | "walk-copypath" => some (fx.copyReadObject, some fx.copyPath, false)
   | _ => none
 
+/-! ### Overwriting an object that already EXISTS (harness part E)
+
+`Mem` is a map: a put REPLACES the binding (`(p, written) :: m.erase p`), so whatever the
+destination held before — longer, shorter, of equal length — is gone once the put has written.
+That is `os.Create` (O_TRUNC) for the plain disk put and `rename(2)` for the atomic one.  The
+file-level view below says what the file holds when the plain branch opens WITHOUT truncation
+(seed C15-m9: `os.OpenFile(path, O_WRONLY|O_CREATE, 0666)`): the written bytes overlay the
+beginning of the old file and its tail survives. -/
+
+/-- How the plain branch of `storageos.bucket.Put` opens the destination: `truncates` =
+    `os.Create` (as coded), `keepsTail` = without `O_TRUNC` (kept for the counterexample). -/
+inductive OpenRule where
+  | truncates | keepsTail
+  deriving DecidableEq, Repr
+
+/-- Bytes of the destination file after a plain put wrote `written` from offset 0 and closed,
+    the file having held `old` (`none`: no file) when it was opened. -/
+def overwriteBytes (rule : OpenRule) (old : Option (List Char)) (written : List Char) : List Char :=
+  match rule, old with
+  | .keepsTail, some o => written ++ o.drop written.length
+  | _, _ => written
+
+/-- The same on `Content`. -/
+def overwrite (rule : OpenRule) (old : Option Content) (written : Content) : Content :=
+  String.ofList (overwriteBytes rule (old.map String.toList) written.toList)
+
+/-- The object of a plain disk put as a reader sees it after the first `j` steps (Put, the
+    Writes; Close changes nothing), by open rule.  `plainPrefix` is the `truncates` instance. -/
+def plainPrefixWith (rule : OpenRule) (old : Option Content) (chunks : List Content) (j : Nat) : Option Content :=
+  if j = 0 then old else some (overwrite rule old (joinContent (chunks.take (j - 1))))
+
+/-! ### A reader that is open ACROSS an overwrite (harness part E5)
+
+`Get` hands out a reader on what the object holds THEN: storagemem wraps the immutable object's
+byte slice, an atomic disk put renames a new inode over the path while the reader keeps the old
+one.  Later puts — completed ones of the same path, in-flight writers of any path in any bucket —
+do not reach it: the reader delivers the previous content to its end.  `recycles` is seed C15-m10
+(the replaced object's backing array goes to a pool and seeds the buffer of the NEXT writer,
+whose first write then lands in the array the reader is still reading), kept for the
+counterexample. -/
+
+inductive BufRule where
+  | asCoded | recycles
+  deriving DecidableEq, Repr
+
+inductive ROp where
+  | read (n : Nat)               -- the reader reads up to n bytes
+  | put (c : List Char)          -- a completed put of the SAME path
+  | other (c : List Char)        -- a completed put of another path
+  | wSame (c : List Char)        -- Put + Write on the same path, not closed yet
+  | wOther (c : List Char)       -- Put + Write on another path (or in another bucket), not closed yet
+  | closeW                       -- Close of the oldest in-flight writer
+  deriving DecidableEq, Repr
+
+structure RSt where
+  obj : List Char                       -- what the bucket holds at the path
+  snap : List Char                      -- the bytes behind the open reader
+  pos : Nat
+  got : List Char                       -- what the reader has delivered so far
+  flight : List (Bool × List Char)      -- in-flight writers: (same path?, written)
+  snapIsCurrent : Bool                  -- the reader's array is still the bucket's object
+  pooled : Bool                         -- (recycles only) the reader's array lies in the pool
+  deriving DecidableEq, Repr
+
+def RSt.init (old : List Char) : RSt := ⟨old, old, 0, [], [], true, false⟩
+
+/-- (recycles only) a new writer takes the pooled array and writes `c` as its first bytes: they
+    land in the reader's array when they fit its capacity (a longer first write reallocates). -/
+def scribble (rule : BufRule) (st : RSt) (c : List Char) : RSt :=
+  match rule with
+  | .asCoded => st
+  | .recycles =>
+    if st.pooled then
+      { st with pooled := false, snap := if c.length ≤ st.snap.length then c ++ st.snap.drop c.length else st.snap }
+    else st
+
+/-- (recycles only) Close of a put that replaces the object the reader was opened on donates
+    that object's array. -/
+def donate (rule : BufRule) (st : RSt) : RSt :=
+  match rule with
+  | .asCoded => { st with snapIsCurrent := false }
+  | .recycles => { st with snapIsCurrent := false, pooled := st.pooled || st.snapIsCurrent }
+
+def rStep (rule : BufRule) (st : RSt) : ROp → RSt
+  | .read n => { st with got := st.got ++ (st.snap.drop st.pos).take n, pos := st.pos + n }
+  | .put c => { donate rule (scribble rule st c) with obj := c }
+  | .other c => scribble rule st c
+  | .wSame c => { scribble rule st c with flight := st.flight ++ [(true, c)] }
+  | .wOther c => { scribble rule st c with flight := st.flight ++ [(false, c)] }
+  | .closeW =>
+    match st.flight with
+    | [] => st
+    | (same, c) :: rest =>
+      if same then { donate rule st with obj := c, flight := rest } else { st with flight := rest }
+
+/-- Run the operations, then the reader reads to its end and the remaining writers are closed.
+    Returns (everything the reader delivered, the object at the path afterwards). -/
+def readerAcross (rule : BufRule) (old : List Char) (ops : List ROp) : List Char × List Char :=
+  let st := ops.foldl (rStep rule) (RSt.init old)
+  let st := rStep rule st (.read (st.snap.length))
+  let st := st.flight.foldl (fun s _ => rStep rule s .closeW) st
+  (st.got, st.obj)
+
 end BufModel.Faults
